@@ -555,7 +555,12 @@ class Executor:
 
     def stmt_Raise(self, node):
         if node.exc is None:
-            raise Unsupported("bare raise")
+            cur = getattr(self, "_handling", None)
+            if not cur:
+                raise Unsupported("bare raise outside an except block")
+            e = RaiseExc(cur[-1])  # re-raise the exception being handled
+            e.node = node
+            raise e
         x = node.exc
         if isinstance(x, ast.Call):
             x = x.func
@@ -609,7 +614,11 @@ class Executor:
                             ev.exc_name = e.name
                             self.st.env[h.name] = ev
                         handled = True
-                        self.exec_block(h.body)
+                        self._handling = getattr(self, "_handling", []) + [e.name]
+                        try:
+                            self.exec_block(h.body)
+                        finally:
+                            self._handling = self._handling[:-1]
                         break
                 if not handled:
                     raise
@@ -1170,7 +1179,7 @@ class Executor:
 
     # ---- expressions ---------------------------------------------------------------
     def eval(self, node) -> V:
-        if self.contract.abstractions and isinstance(node, (ast.ListComp, ast.Call, ast.GeneratorExp, ast.SetComp, ast.Subscript)):
+        if self.contract.abstractions and isinstance(node, (ast.ListComp, ast.Call, ast.GeneratorExp, ast.SetComp, ast.Subscript, ast.BoolOp)):
             src = ast.unparse(node)
             if src in self.contract.abstractions:
                 fn, note = self.contract.abstractions[src]
@@ -1234,6 +1243,8 @@ class Executor:
                 raise Unsupported("dict literal with ** unpacking")
             ks = [self.eval(k) for k in node.keys]
             vs = [self.eval(v) for v in node.values]
+            if all(isinstance(k, VStr) and k.const is not None for k in ks) and len({k.const for k in ks}) == len(ks):
+                return VConcDict(list(zip(ks, vs)))
             if not all(isinstance(k, VInt) for k in ks) or any(not hasattr(v, "t") for v in vs):
                 raise Unsupported("dict literal of this shape")
             if len(ks) > 1:
@@ -1368,6 +1379,12 @@ class Executor:
                 raise Unsupported(f"record key '{k.const}' not declared in the contract's type")
             return f[k.const]
         k = self.eval(node.slice)
+        if isinstance(o, VConcDict) and isinstance(k, VStr) and k.const is not None:
+            for kk, vv in o.items:
+                if isinstance(kk, VStr) and kk.const == k.const:
+                    return vv
+            self.oblige("noraise.key", node, z3.BoolVal(False), f"key {k.const!r} is not in the dict on this path")
+            raise PathEnd()
         if isinstance(o, VOptional):
             # subscripting None raises TypeError
             self.oblige("noraise.subscript_on_None", node, z3.Not(o.isnone))
@@ -1543,6 +1560,12 @@ class Executor:
                 return a.t > b.t
             if isinstance(op, ast.GtE):
                 return a.t >= b.t
+        if isinstance(op, (ast.In, ast.NotIn)) and isinstance(b, (VConcDict, VEmptyDict)) and isinstance(a, VStr) and a.const is not None:
+            items = getattr(b, "items", [])
+            if not all(isinstance(k, VStr) and k.const is not None for k, _v in items):
+                raise Unsupported("membership in a concrete dict with non-literal keys")
+            r = z3.BoolVal(any(k.const == a.const for k, _v in items))
+            return r if isinstance(op, ast.In) else z3.Not(r)
         if isinstance(op, (ast.In, ast.NotIn)):
             if isinstance(b, VOptional):
                 # `x in None` raises TypeError
